@@ -5,6 +5,7 @@ import Pdlv.Resolve
 import Pdlv.Ref
 import Pdlv.Inherit
 import Pdlv.Seg
+import Pdlv.Static
 import Pdlv.Analyzer
 import Pdlv.ToJson
 import Pdlv.Syntax
@@ -291,7 +292,10 @@ def handle (st : State) (req : Json) : Except String (State × Json) := do
           | .panic h => pure (Json.mkObj [("r", "panic"), ("h", Json.str (hazardName h))])
         | "len" =>
           let v ← valueOfJson (← c.getObjVal? "v")
-          pure (Json.mkObj [("r", "ok"), ("len", Json.num (lenBody b v))])
+          -- `len`: the model's `encoded_len`; `enclen`: the right-hand side of theorem `encBody_len`;
+          -- `lenwf` / `decwf`: the hypotheses of `encBody_len` / `decode_no_panic_ideal` on this layout
+          pure (Json.mkObj [("r", "ok"), ("len", Json.num (lenBody b v)), ("enclen", Json.num (encLen b v)),
+            ("lenwf", Json.bool (lenWfBody b)), ("decwf", Json.bool (decWfBody b))])
         | _ => throw s!"unknown case kind {k}"
       pure (st, Json.mkObj [("status", "ok"), ("out", Json.arr outs.toArray)])
   | _ => throw s!"unknown op {op}"
